@@ -19,10 +19,13 @@ import (
 	"encoding/json"
 	"fmt"
 	"net/http/httptest"
+	"sort"
 	"strconv"
 	"strings"
 	"sync"
 	"time"
+
+	chf_context "github.com/free5gc/chf/internal/context"
 )
 
 type concReq struct {
@@ -135,6 +138,93 @@ func runConc(line string, t []string) string {
 		}
 		concQueue = nil
 		return fmt.Sprintf("done=1 n=%d r=%s %s", k, strings.Join(rs, ";"), dumpState())
+	case "notify":
+		// conc notify slow|reenter: a recharge notification to a consumer that is not passive (see notifyCase)
+		if len(t) != 2 || (t[1] != "slow" && t[1] != "reenter") {
+			return "bad-op"
+		}
+		concQueue, concAcked = nil, nil
+		return notifyCase("notify" + t[1])
+	case "burst":
+		// conc burst <n> <supiPrefixHex> <rounds>: n goroutines, one new subscriber each, leave a barrier together and
+		// send <rounds> creates each; observation (quiescent): the record numbers (LocalRecordSequenceNumber) of all
+		// records: lsn=<count>:<min>:<max>:<numbers held by more than one record, at most 10>
+		p := &tk{t: t[1:], ok: true}
+		n, pre, rounds := int(p.i()), p.hexs(), int(p.i())
+		if !p.ok || n < 1 || n > 256 || rounds < 1 || rounds > 1000 {
+			return "bad-op"
+		}
+		runChf("chf reset", []string{"reset"})
+		concQueue, concAcked = nil, nil
+		bodies := make([][]byte, n)
+		supis := make([]string, n)
+		for i := range bodies {
+			supis[i] = fmt.Sprintf("%s%03d", pre, i)
+			r := onlineUpdate(supis[i], "", 0, 0)
+			r.MultipleUnitUsage = nil
+			bodies[i], _ = json.Marshal(r)
+		}
+		created := make([]int, n)
+		var wg sync.WaitGroup
+		barrier := make(chan struct{})
+		for i := range bodies {
+			wg.Add(1)
+			go func(i int) {
+				defer wg.Done()
+				<-barrier
+				for k := 0; k < rounds; k++ {
+					if doHTTP("POST", ccPrefix+"/chargingdata", bodies[i]).Code == 201 {
+						created[i]++
+					}
+				}
+			}(i)
+		}
+		close(barrier)
+		fin := make(chan struct{})
+		go func() { wg.Wait(); close(fin) }()
+		select {
+		case <-fin:
+		case <-time.After(60 * time.Second):
+			return fmt.Sprintf("done=0 n=%d", n*rounds)
+		}
+		count := map[int]int{}
+		ok, total, lo, hi := 0, 0, 0, 0
+		for i, s := range supis {
+			ok += created[i]
+			if ue, found := chf_context.GetSelf().ChfUeFindBySupi(s); found {
+				ue.CULock.Lock()
+				for _, rec := range ue.Records {
+					if rec != nil && rec.ChargingFunctionRecord != nil && rec.ChargingFunctionRecord.LocalRecordSequenceNumber != nil {
+						v := int(rec.ChargingFunctionRecord.LocalRecordSequenceNumber.Value)
+						count[v]++
+						if total == 0 || v < lo {
+							lo = v
+						}
+						if total == 0 || v > hi {
+							hi = v
+						}
+						total++
+					}
+				}
+				ue.CULock.Unlock()
+			}
+		}
+		var dups []int
+		for v, c := range count {
+			if c > 1 {
+				dups = append(dups, v)
+			}
+		}
+		sort.Ints(dups)
+		if len(dups) > 10 {
+			dups = dups[:10]
+		}
+		ds := make([]string, len(dups))
+		for i, v := range dups {
+			ds[i] = strconv.Itoa(v)
+		}
+		cleanupCdrFiles()
+		return fmt.Sprintf("done=1 n=%d created=%d lsn=%d:%d:%d:%s", n*rounds, ok, total, lo, hi, strings.Join(ds, ","))
 	case "fu":
 		var out []string
 		for i, a := range concAcked {
@@ -180,7 +270,32 @@ func genConc(o genOpts, w *bufio.Writer) {
 		supi := fmt.Sprintf("imsi-20893%04d%06d", o.seed%10000, i)
 		cost := r.pick(1, 2, 3)
 		counter := 0
-		switch r.intn(4) {
+		scen := r.intn(5)
+		if o.mode == "newsupi" {
+			scen = 2
+			k = r.pick(4, 6, 8)
+		}
+		if o.mode == "stale" {
+			scen = 4
+			k = r.pick(3, 4, 5)
+		}
+		switch scen {
+		case 4:
+			// one session: updates and its release together (an update behind the release names a stale reference)
+			acct(supi, 1, 100000, cost)
+			fmt.Fprintf(w, "conc seq create %s\n", fmtReq(supi, "smf", 100, 0, 0, 0, nil, nil))
+			sid := supi + "smf-0"
+			fmt.Fprintf(w, "conc seq update %s %s\n", hexOf([]byte(sid)), fmtReq(supi, "smf", 100, 1, 0, 0, nil, []string{usage(1, 100, 0)}))
+			rel := r.intn(k)
+			// the account store answers slowly, so that requests queue behind the one in progress
+			fmt.Fprintf(w, "conc seq slowdb %d\n", r.pick(5, 20, 40))
+			for j := 0; j < k; j++ {
+				if j == rel {
+					fmt.Fprintf(w, "conc par release %s %s\n", hexOf([]byte(sid)), fmtReq(supi, "smf", 100, 2+j, 0, 0, nil, []string{usage(1, 0, r.pick(5, 20))}))
+				} else {
+					fmt.Fprintf(w, "conc par update %s %s\n", hexOf([]byte(sid)), fmtReq(supi, "smf", 100, 2+j, 0, 0, nil, []string{usage(1, r.pick(0, 100), r.pick(5, 25))}))
+				}
+			}
 		case 0:
 			// one subscriber, one rating group, one session: k updates in flight together
 			acct(supi, 1, r.pick(100000, 500, 50)*cost, cost)
@@ -242,6 +357,18 @@ func genConc(o genOpts, w *bufio.Writer) {
 		}
 		fmt.Fprintf(w, "conc go\n")
 		fmt.Fprintf(w, "conc fu\n")
+	}
+	if o.mode == "" {
+		// a consumer that is not passive during a recharge notification; bursts of creates for new subscribers
+		fmt.Fprintf(w, "conc notify reenter\n")
+		fmt.Fprintf(w, "conc notify slow\n")
+		nb := 6
+		if o.tier == "thorough" {
+			nb = 40
+		}
+		for i := 0; i < nb; i++ {
+			fmt.Fprintf(w, "conc burst %d %s %d\n", r.pick(8, 16, 16, 32), hexOf([]byte(fmt.Sprintf("imsi-20894%04d%03d", o.seed%10000, i))), r.pick(100, 250))
+		}
 	}
 	fmt.Fprintf(w, "conc seq end\n")
 }
